@@ -83,7 +83,7 @@ def scenarios(rng, tier):
     return [(s.text(), {})]
 def project(blk, name, meta):
     if blk.fault: return ('fault',)
-    if blk.op.startswith('frame'): return tuple(blk.acts) + (blk.kv.get('live'), blk.kv.get('bytes'))
+    if blk.op.startswith('frame'): return send_opcodes(blk) + (blk.kv.get('live'),)
     if blk.op.startswith('ctor'): return (blk.kv.get('ret'), blk.kv.get('extra'), blk.kv.get('st'), blk.kv.get('live'))
     return ()
 def strip(acts): return [tuple(a.split()[2:]) if a.startswith('send') else tuple(a.split()) for a in acts]
